@@ -1,11 +1,14 @@
 """C10 – persistent store round trip and region: case generation."""
 import random
 from vf import Case
+from gen import cloops
 
 ID = "C10"
 DRIVER = "drv_persist"
 KEEP_PREFIX = 1        # ps.init
 HARNESS = "h_persist"
+GEN = [cloops.pst_gen]              # tie A: trivialsum and the layout helpers of persistent-storage.c, translated from clang's AST
+tie_modules = cloops.pst_tie_modules
 RULE = ("data sizes 1..12 (quick) / 1..40 (thorough) x placements {0, 1, 7, 1000} x {trivial sum, CRC-16/ARC, 32-bit sum} x auxiliary buffer "
         "sizes none, 0..size+1: full store, validate, fetch; every (offset, length) partial store and partial fetch incl. lengths/offsets "
         "one past the end and pairs whose sum wraps in size_t; every single-octet alteration of checksum field and data followed by validate; "
